@@ -87,6 +87,20 @@ theorem dictSetAll_mem_iff (ps : List (Int × Int)) (d : Dict) (k v : Int) :
           · cases h
           · exact Or.inr ⟨fun h => e h.symm, hm⟩
 
+theorem lastVal_isSome_of_mem (ps : List (Int × Int)) {k v : Int} (h : (k, v) ∈ ps) :
+    ∃ v', lastVal ps k = some v' := by
+  induction ps with
+  | nil => simp at h
+  | cons p rest ih =>
+    rw [lastVal_cons]
+    cases hl : lastVal rest k with
+    | some x => exact ⟨x, rfl⟩
+    | none =>
+      rcases List.mem_cons.1 h with e | h'
+      · subst e; exact ⟨v, by simp⟩
+      · obtain ⟨v', hv'⟩ := ih h'
+        rw [hl] at hv'; cases hv'
+
 /-! ### `generate_permutation` succeeds only on values that are modes of interest -/
 
 theorem vals_moi_of_genPerm_ok (fixed : RFlags) (l r : Side) (raw : RawMap) (d : Dict) (mp : NMap)
